@@ -123,6 +123,12 @@ Definition search_subtree (l : list node) (b : nat) : res (nat * nat) :=
               end
   end.
 
+(* searchSubtree(begin) as called from Python: a negative index counts from the end
+   (repo commit 992a71c "fix: PrimitiveTree.searchSubtree accepts a negative index") *)
+Definition search_subtree_py (l : list node) (begin : Z) : res (nat * nat) :=
+  let b := if begin <? 0 then begin + zlen l else begin in
+  if b <? 0 then Err EIndex else search_subtree l (Z.to_nat b).
+
 (* height: stack = [0]; for elem: depth = stack.pop(); max_depth = max(max_depth, depth);
    stack.extend([depth + 1] * elem.arity).   head of the Coq list = end of the Python list *)
 Fixpoint height_loop (l : list node) (stack : list Z) (maxd : Z) : res Z :=
@@ -161,6 +167,12 @@ Definition set_item (l : list node) (i : nat) (v : node) : res (list node) :=
   | None => Err EIndex
   | Some old => if Nat.eqb (arity v) (arity old) then Ok (set_nth l i v) else Err EValue
   end.
+
+(* tree[i] = v with a Python index (self[key] resolves negative keys) *)
+Definition set_item_py (l : list node) (i : Z) (v : node) : res (list node) :=
+  let n := zlen l in
+  let j := if i <? 0 then i + n else i in
+  if (j <? 0) || (n <=? j) then Err EIndex else set_item l (Z.to_nat j) v.
 
 (* ---------------------------------------------------------------- primitive set *)
 Record pset := mkpset {
@@ -260,9 +272,22 @@ Definition swap_subtrees (l1 l2 : list node) (i1 i2 : nat) : M (list node * list
   l2' <- lift (set_slice l2 (fst s2) (snd s2) sub1) ;;
   ret (l1', l2').
 
+(* the same statement when ind1 and ind2 are ONE list object: both slices are computed first, the first
+   assignment changes the list, the second uses the stale slice on the changed list *)
+Definition swap_same (l _l : list node) (i1 i2 : nat) : M (list node * list node) :=
+  s1 <- lift (search_subtree l i1) ;;
+  s2 <- lift (search_subtree l i2) ;;
+  let sub1 := get_slice l (fst s1) (snd s1) in
+  let sub2 := get_slice l (fst s2) (snd s2) in
+  l' <- lift (set_slice l (fst s1) (snd s1) sub2) ;;
+  l'' <- lift (set_slice l' (fst s2) (snd s2) sub1) ;;
+  ret (l'', l'').
+
 Definition all_nodes (n : node) := true.
 
-Definition cx_one_point (l1 l2 : list node) : M (list node * list node) :=
+Definition swapper := list node -> list node -> nat -> nat -> M (list node * list node).
+
+Definition cx_one_point_with (swap : swapper) (l1 l2 : list node) : M (list node * list node) :=
   if (length l1 <? 2)%nat || (length l2 <? 2)%nat then ret (l1, l2) else
   match l1 with
   | [] => ret (l1, l2)
@@ -272,7 +297,7 @@ Definition cx_one_point (l1 l2 : list node) : M (list node * list node) :=
       t <- d_choice [tobj] ;;
       i1 <- d_choice (seq 1 (length l1 - 1)) ;;
       i2 <- d_choice (seq 1 (length l2 - 1)) ;;
-      swap_subtrees l1 l2 i1 i2
+      swap l1 l2 i1 i2
     else
       let commons := common_types all_nodes all_nodes l1 l2 in
       match commons with
@@ -281,14 +306,17 @@ Definition cx_one_point (l1 l2 : list node) : M (list node * list node) :=
         t <- d_choice commons ;;
         i1 <- d_choice (idx_of_type all_nodes l1 t) ;;
         i2 <- d_choice (idx_of_type all_nodes l2 t) ;;
-        swap_subtrees l1 l2 i1 i2
+        swap l1 l2 i1 i2
       end
   end.
+(* two distinct tree objects / the same object passed twice *)
+Definition cx_one_point := cx_one_point_with swap_subtrees.
+Definition cx_one_point_same (l : list node) := cx_one_point_with swap_same l l.
 
 Definition is_term (n : node) : bool := Nat.eqb (arity n) 0.     (* partial(eq, 0) *)
 Definition is_prim (n : node) : bool := (0 <? arity n)%nat.       (* partial(lt, 0) *)
 
-Definition cx_leaf_biased (pn : Z) (pd : positive) (l1 l2 : list node) : M (list node * list node) :=
+Definition cx_leaf_biased_with (swap : swapper) (pn : Z) (pd : positive) (l1 l2 : list node) : M (list node * list node) :=
   if (length l1 <? 2)%nat || (length l2 <? 2)%nat then ret (l1, l2) else
   u1 <- d_random ;;
   u2 <- d_random ;;
@@ -301,8 +329,10 @@ Definition cx_leaf_biased (pn : Z) (pd : positive) (l1 l2 : list node) : M (list
     t <- d_choice commons ;;
     i1 <- d_choice (idx_of_type op1 l1 t) ;;
     i2 <- d_choice (idx_of_type op2 l2 t) ;;
-    swap_subtrees l1 l2 i1 i2
+    swap l1 l2 i1 i2
   end.
+Definition cx_leaf_biased := cx_leaf_biased_with swap_subtrees.
+Definition cx_leaf_biased_same pn pd (l : list node) := cx_leaf_biased_with swap_same pn pd l l.
 
 (* ---------------------------------------------------------------- mutations *)
 Definition mut_uniform (ps : pset) (g : gexpr) (l : list node) : M (list node) :=
@@ -429,6 +459,7 @@ Definition mut_shrink (l : list node) : M (list node) :=
 (* ---------------------------------------------------------------- operators as data, staticLimit *)
 Inductive opcall :=
 | OCx | OCxLB (pn : Z) (pd : positive)
+| OCxSame | OCxLBSame (pn : Z) (pd : positive)      (* the same tree object passed twice *)
 | OMutUniform (g : gexpr) | OMutNodeRepl | OMutEph (m : emode) | OMutInsert | OMutShrink.
 
 Definition pair_list {A} (p : A * A) : list A := [fst p; snd p].
@@ -438,6 +469,8 @@ Definition run_op (ps : pset) (oc : opcall) (inputs : list (list node)) : M (lis
   match oc, inputs with
   | OCx, [a; b] => p <- cx_one_point a b ;; ret (pair_list p)
   | OCxLB pn pd, [a; b] => p <- cx_leaf_biased pn pd a b ;; ret (pair_list p)
+  | OCxSame, [a] => p <- cx_one_point_same a ;; ret (pair_list p)
+  | OCxLBSame pn pd, [a] => p <- cx_leaf_biased_same pn pd a ;; ret (pair_list p)
   | OMutUniform g, [a] => x <- mut_uniform ps g a ;; ret [x]
   | OMutNodeRepl, [a] => x <- mut_node_replacement ps a ;; ret [x]
   | OMutEph m, [a] => x <- mut_ephemeral m a ;; ret [x]
